@@ -2,7 +2,7 @@ CONSTANTS
   Routes = {"/a", "/b"}
   Hosts = {0, 1}
   MCSizes = {0}
-  MCIds = {1, 2}
+  MCIds = {1}
   Payloads <- MCPayloads
   Limit = 0
   TimeLimit = 60
